@@ -469,7 +469,8 @@ func genSeqScript(seed uint64, profile string) []string {
 		}
 	}
 	refresh := "none"
-	if profile == "load" || r.chance(0.4) {
+	// (the load profile mostly refreshes, but a quarter of its caches load without refresh being configured)
+	if (profile == "load" && r.chance(0.75)) || (profile != "load" && r.chance(0.4)) {
 		g.withRef = true
 		refresh = pick(r, []string{"creating", "writing", "custom"})
 		if refresh != "custom" {
